@@ -1,0 +1,64 @@
+//go:build verif
+
+package gc
+
+// Contracts for the deductive verifier in /verif (govc). Comments only; compiled solely with -tags verif.
+
+// ---------------------------------------------------------------------------------------------
+// Garbage collection keeps everything a root needs (C25).
+//
+// depsIn(g, x, m): everything x depends on — resolved dependencies, declared dependencies that exist in
+// the graph, and the target of its subrepo — is in the set m.
+//@ spec depsIn(g *core.BuildGraph, x *core.BuildTarget, m targetMap) bool = \
+//@      (forall i int :: 0 <= i && i < len(x.Dependencies()) ==> m[x.Dependencies()[i]]) && \
+//@      (forall i int :: 0 <= i && i < len(x.DeclaredDependencies()) ==> \
+//@         g.Target(x.DeclaredDependencies()[i]) == nil || m[g.Target(x.DeclaredDependencies()[i])]) && \
+//@      (x.Subrepo != nil && x.Subrepo.Target != nil ==> m[x.Subrepo.Target])
+//
+// addTarget(graph, m, target): m only grows; target is added; every target that is new in m has all its
+// dependencies in m. (So a dependency-closed set stays dependency-closed.)
+//@ func addTarget
+//@   requires m != nil && graph != nil
+//@   modifies m
+//@   invariant "range target.DeclaredDependencies()" grows: forall x *core.BuildTarget :: old(m[x]) ==> m[x]
+//@   invariant "range target.DeclaredDependencies()" self: m[target] && target != nil && !old(m[target])
+//@   invariant "range target.DeclaredDependencies()" news: forall x *core.BuildTarget :: m[x] && !old(m[x]) && x != target ==> depsIn(graph, x, m)
+//@   invariant "range target.DeclaredDependencies()" done: forall j int :: 0 <= j && j < idx ==> \
+//@      graph.Target(target.DeclaredDependencies()[j]) == nil || m[graph.Target(target.DeclaredDependencies()[j])]
+//@   invariant "range target.Dependencies()" grows: forall x *core.BuildTarget :: old(m[x]) ==> m[x]
+//@   invariant "range target.Dependencies()" self: m[target] && target != nil && !old(m[target])
+//@   invariant "range target.Dependencies()" news: forall x *core.BuildTarget :: m[x] && !old(m[x]) && x != target ==> depsIn(graph, x, m)
+//@   invariant "range target.Dependencies()" declared: forall j int :: 0 <= j && j < len(target.DeclaredDependencies()) ==> \
+//@      graph.Target(target.DeclaredDependencies()[j]) == nil || m[graph.Target(target.DeclaredDependencies()[j])]
+//@   invariant "range target.Dependencies()" done: forall j int :: 0 <= j && j < idx ==> m[target.Dependencies()[j]]
+//@   ensures grows [C25]: forall x *core.BuildTarget :: old(m[x]) ==> m[x]
+//@   ensures added [C25]: target != nil ==> m[target]
+//@   ensures closed_new [C25]: forall x *core.BuildTarget :: m[x] && !old(m[x]) ==> depsIn(graph, x, m)
+//
+// targetsToRemove: the set of kept targets is dependency-closed at every step (it only changes through
+// addTarget); the kept sources cover every local source of every kept target; no proposed source is a kept
+// source, hence none is used by a kept target.
+//@ spec closedK(g *core.BuildGraph, m targetMap) bool = forall x *core.BuildTarget :: m[x] ==> depsIn(g, x, m)
+//@ spec srcsCovered(m targetMap, ks map[string]bool) bool = forall t *core.BuildTarget, i int :: \
+//@      in(t, m) && 0 <= i && i < len(t.AllLocalSourcePaths()) ==> ks[t.AllLocalSourcePaths()[i]]
+//
+//@ assume func publicDependencies
+//@   pure
+//
+//@ func targetsToRemove
+//@   requires graph != nil
+//@   opt panics=allowed
+//@   opt nopanic=off
+//@   invariant "range" keep_closed [C25]: keepTargets != nil && closedK(graph, keepTargets)
+//@   invariant "range keepTargets" srcs_visited [C25]: keepSrcs != nil && (forall t *core.BuildTarget, i int :: \
+//@      visited(t) && 0 <= i && i < len(t.AllLocalSourcePaths()) ==> keepSrcs[t.AllLocalSourcePaths()[i]])
+//@   invariant "loop#10" srcs_visited_inner [C25]: keepSrcs != nil && (forall t *core.BuildTarget, i int :: \
+//@      visited(t) && 0 <= i && i < len(t.AllLocalSourcePaths()) ==> keepSrcs[t.AllLocalSourcePaths()[i]])
+//@   invariant "loop#10" srcs_current [C25]: forall j int :: 0 <= j && j < idx ==> keepSrcs[target.AllLocalSourcePaths()[j]]
+//@   invariant "loop#11" covered [C25]: srcsCovered(keepTargets, keepSrcs)
+//@   invariant "loop#11" proposed [C25]: forall k int :: 0 <= k && k < len(retSrcs) ==> !keepSrcs[retSrcs[k]]
+//@   invariant "loop#12" covered [C25]: srcsCovered(keepTargets, keepSrcs)
+//@   invariant "loop#12" proposed [C25]: forall k int :: 0 <= k && k < len(retSrcs) ==> !keepSrcs[retSrcs[k]]
+//@   ensures kept_closed [C25]: closedK(graph, keepTargets)
+//@   ensures no_kept_source [C25]: forall k int, t *core.BuildTarget, i int :: 0 <= k && k < len(result1) && in(t, keepTargets) && \
+//@      0 <= i && i < len(t.AllLocalSourcePaths()) ==> result1[k] != t.AllLocalSourcePaths()[i]
